@@ -32,13 +32,14 @@ type params struct {
 	full    bool // enumerate the scripts of two-checkpoint runs too (otherwise one fixed script set)
 	focused bool // one fixed script set for every checkpoint count (deeper schedule bound)
 	ckpts   int  // when set: exactly this many consecutive checkpoints (fixed scripts)
+	skip    bool // one sender (enumerated) never delivers barrier 1 and goes straight to barrier 2
 }
 
 func Run(k *report.Check) {
-	k.Rule = "one real Operator (event batch size 1 or 2), R sender threads (source runners) that each play a script through HandleEvent sequentially; scripts enumerated: 0-2 keyed events before each barrier (keys collide across senders), 0-1 after, optional pre-barrier watermark, one timer-setting event, one or two consecutive checkpoints (separate parts: three, thorough also four, with fixed scripts); every schedule of the sender threads, the operator's event loop and the (slow) handler within the delay bound. For every OperatorCheckpointComplete(N): the events applied so far are exactly the events every sender delivered before its barrier N, no timer fired that only post-barrier watermarks justify and every registered timer that the senders' pre-barrier watermarks make due has fired (once), the DKV checkpoint reported for N (opened afterwards with a fresh database) holds exactly that state, no deadlock. non-trivial = distinct (scripts, schedule cost) executions in which a sender had passed its barrier while another sender's pre-barrier event was still to be applied"
+	k.Rule = "one real Operator (event batch size 1 or 2), R sender threads (source runners) that each play a script through HandleEvent sequentially; scripts enumerated: 0-2 keyed events before each barrier (keys collide across senders), 0-1 after, optional pre-barrier watermark, one timer-setting event, one or two consecutive checkpoints (separate parts: three, thorough also four, with fixed scripts); every schedule of the sender threads, the operator's event loop and the (slow) handler within the delay bound. A further part lets one sender (enumerated) skip barrier 1 and go straight to barrier 2: checkpoint 1 may never be reported, and checkpoint 2, if reported, must still be the cut at every sender's barrier 2 (senders may stay parked; the run is judged when nothing can run any more). For every OperatorCheckpointComplete(N): the events applied so far are exactly the events every sender delivered before its barrier N, no timer fired that only post-barrier watermarks justify and every registered timer that the senders' pre-barrier watermarks make due has fired (once), the DKV checkpoint reported for N (opened afterwards with a fresh database) holds exactly that state, no deadlock. non-trivial = distinct (scripts, schedule cost) executions in which a sender had passed its barrier while another sender's pre-barrier event was still to be applied"
 	k.Assumptions = []string{"scheduling points at synchronisation operations (sequentially consistent)", "large memtable: the database's background work is C07/C08's subject"}
 	k.Budget(120, 1200)
-	k.Parts(k.Pick(4, 5))
+	k.Parts(k.Pick(5, 6))
 	bound := k.Pick(1, 2)
 	k.ExploreSched(fmt.Sprintf("align/all-scripts,senders=2,delays<=%d", bound), mc.Config{Bound: bound}, params{senders: 2, full: k.Thorough()}, body)
 	k.ExploreSched(fmt.Sprintf("align/focused-scripts,senders=2,delays<=%d", bound+1), mc.Config{Bound: bound + 1}, params{senders: 2, focused: true}, body)
@@ -47,6 +48,8 @@ func Run(k *report.Check) {
 	k.ExploreSched(fmt.Sprintf("align/three-checkpoints,senders=2,delays<=%d", bound), mc.Config{Bound: bound, Deadline: k.Within(0.5)}, params{senders: 2, focused: true, ckpts: 3}, body)
 	// three senders: a barrier that is neither the first nor the last of its checkpoint exists
 	k.ExploreSched(fmt.Sprintf("align/focused-scripts,senders=3,delays<=%d", bound+1), mc.Config{Bound: bound + 1}, params{senders: 3, focused: true}, body)
+	// a runner that never delivers barrier 1 and goes on to barrier 2 (the job gave checkpoint 1 up for it)
+	k.ExploreSched(fmt.Sprintf("align/skipped-barrier,senders=2,delays<=%d", bound+1), mc.Config{Bound: bound + 1, Deadline: k.Within(0.3)}, params{senders: 2, skip: true}, body)
 	if k.Thorough() {
 		k.ExploreSched("align/four-checkpoints,senders=2,delays<=2", mc.Config{Bound: 2, Deadline: k.Within(0.4)}, params{senders: 2, focused: true, ckpts: 4}, body)
 	}
@@ -103,7 +106,39 @@ func body(c *mc.Ctx) {
 		return v % p.senders
 	}
 	var desc []string
-	for r := 0; r < p.senders; r++ {
+	skipper := -1
+	if p.skip {
+		// checkpoint 1 was given up by the job for one runner (it never delivers barrier 1): it can
+		// never complete, and checkpoint 2 still has to be the cut at everybody's barrier 2
+		skipper = c.Choose(p.senders)
+		nCkpt = 2
+		preSet = []map[string]bool{{}, {}, {}}
+		preWM = [][]int64{make([]int64, p.senders), make([]int64, p.senders), make([]int64, p.senders)}
+		for r := 0; r < p.senders; r++ {
+			ev := func(i int) step {
+				return step{kind: 'e', key: []string{"a", "b"}[(r+i)%2], id: fmt.Sprintf("s%de%d", r, i)}
+			}
+			var sc []step
+			if r == skipper {
+				sc = []step{ev(0), {kind: 'b', n: 2}, ev(1)}
+				preSet[2][sc[0].id] = true
+			} else {
+				sc = []step{ev(0), {kind: 'b', n: 1}, ev(1), {kind: 'b', n: 2}, ev(2)}
+				preSet[2][sc[0].id], preSet[2][sc[2].id] = true, true
+			}
+			scripts[r] = sc
+			var d []string
+			for _, st := range sc {
+				if st.kind == 'e' {
+					d = append(d, st.id+"@"+st.key)
+				} else {
+					d = append(d, fmt.Sprintf("barrier(%d)", st.n))
+				}
+			}
+			desc = append(desc, fmt.Sprintf("s%d: %s", r, strings.Join(d, " ")))
+		}
+	}
+	for r := 0; r < p.senders && !p.skip; r++ {
 		var sc []step
 		ev := 0
 		add := func() {
@@ -231,8 +266,14 @@ func body(c *mc.Ctx) {
 				shim.Send(done, func() { done <- struct{}{} })
 			})
 		}
-		for r := 0; r < p.senders; r++ {
-			shim.Recv(done)
+		if p.skip {
+			// senders may stay parked for good (a checkpoint that cannot complete): virtual time
+			// only moves on once nothing can run any more
+			shim.Sleep(time.Second)
+		} else {
+			for r := 0; r < p.senders; r++ {
+				shim.Recv(done)
+			}
 		}
 		cancel()
 		shim.Recv(started)
@@ -241,17 +282,33 @@ func body(c *mc.Ctx) {
 	if len(h.Failures) > 0 {
 		c.FailSig("handler-state", "handler saw wrong state: %s", strings.Join(h.Failures, "; "))
 	}
+	if p.skip {
+		// a barrier that does not belong to the checkpoint being aligned may be refused
+		kept := scriptErrs[:0]
+		for _, e := range scriptErrs {
+			if !strings.Contains(e, ": b ") {
+				kept = append(kept, e)
+			}
+		}
+		scriptErrs = kept
+	}
 	if len(scriptErrs) > 0 {
 		c.FailSig("event-rejected", "operator rejected events: %s", strings.Join(scriptErrs, "; "))
 	}
 	if len(foreignAccepted) > 0 {
 		c.FailSig("foreign-barrier-accepted", "a barrier with a foreign checkpoint id was accepted: %v", foreignAccepted)
 	}
-	if len(job.Completions) != nCkpt {
+	if len(job.Completions) != nCkpt && !p.skip {
 		c.FailSig("missing-checkpoint", "%d checkpoints completed, scripts contain %d barriers per sender", len(job.Completions), nCkpt)
 	}
 	for i, comp := range job.Completions {
 		n := uint64(i + 1)
+		if p.skip {
+			n = comp.Req.CheckpointId
+			if n != 2 {
+				c.FailSig("checkpoint-without-every-barrier", "checkpoint %d was reported although sender %d never delivered its barrier", n, skipper)
+			}
+		}
 		if comp.Req.CheckpointId != n {
 			c.Failf("completion %d reports checkpoint id %d", i, comp.Req.CheckpointId)
 		}
